@@ -906,8 +906,14 @@ Stylesheet::addTemplate(
                     }
                     else if (data[i].getTargetType() == XPath::TargetData::eAny)
                     {
+                        // A pattern that is a call of key() (or id())
+                        // can match a node of any kind.
                         addToList(m_elementAnyPatternList, newMatchPat);
                         addToList(m_attributeAnyPatternList, newMatchPat);
+                        addToList(m_commentPatternList, newMatchPat);
+                        addToList(m_textPatternList, newMatchPat);
+                        addToList(m_piPatternList, newMatchPat);
+                        addToList(m_rootPatternList, newMatchPat);
                     }
                 }
                 else
